@@ -608,6 +608,13 @@ fn state_step() -> BoxedStrategy<Step> {
     (triple(), proptest::collection::vec(op, 1..10)).prop_map(|(s, ops)| Step::StateOps { s, ops }).boxed()
 }
 fn profile_step() -> BoxedStrategy<Step> {
+    let times = || proptest::collection::vec(prop_oneof![-1_000_000_000i64..0, 0i64..4_000_000_000_000, Just(0i64)], 1..8);
+    // triangular profiles whose cruise phase has exactly zero length (powers of two keep every intermediate exact): a phase of
+    // no duration is still a duration
+    let triangular = (proptest::sample::select(vec![0.5f32, 1.0, 2.0, 4.0]), proptest::sample::select(vec![0.25f32, 0.5, 1.0, 2.0]), any::<bool>(), times()).prop_map(|(v, a, neg, times)| Step::Profile { start: [0.0; 3], end: [if neg { -(v * v / a) } else { v * v / a }, 0.0, 0.0], max_vel: v, max_acc: a, times });
+    prop_oneof![6 => profile_step_general(), 1 => triangular].boxed()
+}
+fn profile_step_general() -> BoxedStrategy<Step> {
     (crate::mp::scenario_strategy(), proptest::collection::vec(prop_oneof![-1_000_000_000i64..0, 0i64..4_000_000_000_000, Just(0i64)], 1..8)).prop_map(|(sc, times)| Step::Profile { start: sc.prof.start, end: sc.prof.end, max_vel: sc.prof.max_vel, max_acc: sc.prof.max_acc, times }).boxed()
 }
 fn stream_step() -> BoxedStrategy<Step> {
